@@ -263,13 +263,13 @@ func genHistory(rng *rand.Rand, n int) []op {
 			case 2:
 				p = pick() // a full key as prefix
 			case 3:
-				p = "q" // matches nothing
+				p = []string{"q", "a", "k", "a", "z"}[rng.Intn(5)] // "q" matches nothing; "a", "k" match many
 			default:
 				p = keyPrefixes[rng.Intn(len(keyPrefixes))]
 			}
 			o := op{Kind: "iterate", Prefix: p, Mode: []string{"all", "stop", "error", "error+stop"}[rng.Intn(4)]}
 			if o.Mode != "all" {
-				o.At = 1 + rng.Intn(4)
+				o.At = 1 + rng.Intn(3)
 			}
 			ops = append(ops, o)
 		default:
